@@ -614,14 +614,15 @@ class Emit:
                 o.append('  %s = (%s)(%s %s %s);' % (R, ct, a, '/' if op == 'udiv' else '%', bb))
             elif op in ('sdiv','srem'):
                 o.append('  %s = (%s)((%s)%s %s (%s)%s);' % (R, ct, sct, a, '/' if op == 'sdiv' else '%', sct, bb))
-            elif op == 'shl':
-                if s.o.get('ubchecks'): o.append('  VERIF_SHIFT(%s, %d);' % (bb, t.bits))
-                o.append('  %s = (%s)((%s)%s << %s)%s;' % (R, ct, ct, a, bb, mask))
-            elif op == 'lshr':
-                if s.o.get('ubchecks'): o.append('  VERIF_SHIFT(%s, %d);' % (bb, t.bits))
-                o.append('  %s = (%s)((%s)%s >> %s);' % (R, ct, ct, a, bb))
-            elif op == 'ashr':
-                o.append('  %s = (%s)((%s)%s >> %s);' % (R, ct, sct, a, bb))
+            elif op in ('shl', 'lshr', 'ashr'):
+                # an over-wide shift yields poison in LLVM (legal when the result is unused, e.g. speculated switch
+                # bit-tests): modelled as an arbitrary value, so any real dependence on it shows up downstream
+                sym = '<<' if op == 'shl' else '>>'
+                lt = sct if op == 'ashr' else ct
+                expr = '(%s)((%s)%s %s %s)%s' % (ct, lt, a, sym, bb, mask if op == 'shl' else '')
+                if i.b.kind == 'int': o.append('  %s = %s;' % (R, expr))
+                elif s.o.get('ubchecks'): o.append('  %s = ((uint64_t)%s < %d) ? %s : (%s)verif_poison_u64();' % (R, bb, t.bits, expr, ct))
+                else: o.append('  %s = %s;' % (R, expr))
             else: raise TypeError(op)
         elif i.op == 'fneg': o.append('  %s = -%s;' % (R, s.val(i.a)))
         elif i.op == 'cast':
